@@ -24,9 +24,11 @@ ROWS = {
     13: "memory receive(), sender waiting", 14: "to_thread.run_sync()", 15: "TaskHandle.wait() on finished task",
     16: "await TaskHandle of finished task", 17: "Future.wait() on finished future",
     18: "functools.reduce() over a non-empty input with a reducer that never yields", 22: "functools.reduce() with zero callback calls", 19: "await Future (finished)", 20: "await Future (failed)",
-    21: "Condition.wait() in a cancelled scope, another task queued on the lock", 30: "Lock.acquire(fast_acquire=True)", 31: "acquire_nowait()",
+    21: "Condition.wait() in a cancelled scope, another task queued on the lock",
+    23: "Event created and set outside the loop: wait()", 24: "Lock created outside the loop: acquire()",
+    25: "Semaphore created outside the loop: acquire()", 26: "CapacityLimiter created outside the loop: acquire()", 30: "Lock.acquire(fast_acquire=True)", 31: "acquire_nowait()",
 }
-CHECKED = [1, 2, 3, 4, 5, 6, 7, 8, 10, 11, 12, 13, 14, 15, 16, 17, 18, 19, 20, 22]
+CHECKED = [1, 2, 3, 4, 5, 6, 7, 8, 10, 11, 12, 13, 14, 15, 16, 17, 18, 19, 20, 22, 23, 24, 25, 26]
 
 
 async def run_row(row: int, cancelled: bool):
@@ -61,6 +63,21 @@ async def run_row(row: int, cancelled: bool):
             lock.acquire_nowait()
         op = nowait
         check_effect = lambda: int(lock.locked())  # noqa: E731
+    elif row == 23:
+        ev = PRE[(row, cancelled)]       # an EventAdapter, set before the loop started, never realised so far
+        op = ev.wait
+    elif row == 24:
+        lock = PRE[(row, cancelled)]
+        op = lock.acquire
+        check_effect = lambda: int(lock.locked())  # noqa: E731
+    elif row == 25:
+        sem = PRE[(row, cancelled)]
+        op = sem.acquire
+        check_effect = lambda: 1 - sem.value  # noqa: E731
+    elif row == 26:
+        lim = PRE[(row, cancelled)]
+        op = lim.acquire
+        check_effect = lambda: lim.borrowed_tokens  # noqa: E731
     elif row == 6:
         sem = Semaphore(1)
         op = sem.acquire
@@ -211,7 +228,7 @@ async def run_row(row: int, cancelled: bool):
     eff = check_effect()
     # clean up
     try:
-        if row in (5, 30, 31) and lock.locked():
+        if row in (5, 24, 30, 31) and lock.locked():
             lock.release()
         if row in (8, 9, 21) and cond.locked():
             cond.release()
@@ -223,9 +240,30 @@ async def run_row(row: int, cancelled: bool):
     return [int(raised), int(eff), int(yielded)]
 
 
+PRE: dict = {}
+
+
+def make_pre(rows):
+    """Objects created while NO event loop is running (AnyIO hands out adapter objects then); one per case, as
+    realising the adapter is state left behind."""
+    import anyio
+    PRE.clear()
+    for canc in (False, True):
+        if 23 in rows:
+            ev = anyio.Event(); ev.set()
+            PRE[(23, canc)] = ev
+        if 24 in rows:
+            PRE[(24, canc)] = anyio.Lock()
+        if 25 in rows:
+            PRE[(25, canc)] = anyio.Semaphore(1)
+        if 26 in rows:
+            PRE[(26, canc)] = anyio.CapacityLimiter(1)
+
+
 def run_config(config: str, rows):
     import anyio
     out = {}
+    make_pre(rows)
 
     async def main():
         for row in rows:
@@ -251,14 +289,14 @@ def run_config(config: str, rows):
 
 
 TIE_FILES = ("prims/FastPathGen.v", "prims/FastPathGenEq.v", "prims/LockGen.v", "prims/LockGenEq.v", "prims/SemGen.v",
-             "prims/SemGenEq.v", "prims/LimiterGen.v", "prims/LimiterGenEq.v", "prims/CondGen.v", "prims/CondGenEq.v")
+             "prims/SemGenEq.v", "prims/LimiterGen.v", "prims/LimiterGenEq.v", "prims/CondGen.v", "prims/CondGenEq.v", "prims/MemGen.v", "prims/MemGenEq.v")
 
 
 def check(tier: str) -> int:
     rep = core.Report("C08", tier)
     rep.assumptions = core.TRUSTED_BASE_COMMON + [
         "the shape table prims/FastPath.v: 13 rows are regenerated from /repo's source on every run by the fail-closed translator tools/translate_fastpath.py and proved equal to the table (FastPathGenEq.v); all rows are additionally validated against the real operations on stock asyncio, eager task factory and uvloop",
-        "rows 5-7 (Lock / Semaphore / CapacityLimiter acquire) are ALSO proved on the regenerated code: the entry segments that tools/translate_lock.py / translate_prims.py regenerate on this run, interpreted (LockImp.exec / PrimImp.exec) with the caller's scope effectively cancelled at entry, end at the cancellation check with nothing changed (C08_tie_lock/sem/lim_cancelled_entry_noeffect, and C08_tie_cond_wait_cancelled_entry_noeffect for row 9; for the limiter for every state and borrower, the check precedes both RuntimeError tests; for Lock/Semaphore on the uncontended path, the contended path has no check and behaves as the live call); the interpreters treat an effect before the check as stuck. Trusted there: the translators' mapping and the reading of a fresh checkpoint_if_cancelled() (raises when the scope is effectively cancelled: C08_ckif_suspends_iff_effectively_cancelled, C03_ckif_spin_terminates on the S machine; no-op otherwise)",
+        "rows 5-7 (Lock / Semaphore / CapacityLimiter acquire) are ALSO proved on the regenerated code: the entry segments that tools/translate_lock.py / translate_prims.py regenerate on this run, interpreted (LockImp.exec / PrimImp.exec) with the caller's scope effectively cancelled at entry, end at the cancellation check with nothing changed (C08_tie_lock/sem/lim_cancelled_entry_noeffect, C08_tie_cond_wait_cancelled_entry_noeffect for row 9, C08_tie_mem_cancelled_entry_noeffect for rows 10-13 (the first statement of send/receive is a full checkpoint); for the limiter for every state and borrower, the check precedes both RuntimeError tests; for Lock/Semaphore on the uncontended path, the contended path has no check and behaves as the live call); the interpreters treat an effect before the check as stuck. Trusted there: the translators' mapping and the reading of a fresh checkpoint_if_cancelled() (raises when the scope is effectively cancelled: C08_ckif_suspends_iff_effectively_cancelled, C03_ckif_spin_terminates on the S machine; no-op otherwise)",
         "functools.reduce: rows 18 (non-yielding reducer over a non-empty input) and 22 (zero invocations); before the F22 fix reduce delegated its checkpoint to the awaited callback",
         "states in which the operation must really wait are governed by C03",
     ]
@@ -267,7 +305,7 @@ def check(tier: str) -> int:
     # and rebuild the cone, all under the `tiegen` lock (harness/tiegen.py); a refusal leaves a *Gen.v that does not compile
     import tiegen
     t_rc, t_out, proofs_ok = tiegen.translate_and_prove(
-        rep, "props/C08.v", ["translate_fastpath.py", "translate_lock.py", "translate_prims.py", "translate_cond.py"])
+        rep, "props/C08.v", ["translate_fastpath.py", "translate_lock.py", "translate_prims.py", "translate_cond.py", "translate_mem.py"])
     tie_T, tie_T_broken = tiegen.describe(rep, t_rc, t_out, proofs_ok, TIE_FILES)
     tie_T.pop("segments", None)
     rep.coverage["translator"] = "; ".join(tie_T["translator_output"])[-900:]
